@@ -33,13 +33,16 @@ FILES = {
     'moov-v1': ('moov.mp4', None, {}, 'headers-v1'),
     'emsg-boxes': ('moov.mp4', None, {}, 'emsg-boxes'),
     'aseg': ('bbb/bbb_a1.mp4', 'segment:1', {}),
+    'aac-init': ('bbb/bbb_a1.mp4', 'segment:0', {}),
+    'aac-esds-ocr': ('bbb/bbb_a1.mp4', 'segment:0', {}, 'esds-ocr'),
+    'aac-esds-all': ('bbb/bbb_a1.mp4', 'segment:0', {}, 'esds-all'),
     'emsg': ('emsg.mp4', None, {}),
     'bbb_v7': ('bbb/bbb_v7.mp4', None, {}),
     'bbb_a1_enc': ('bbb/bbb_a1_enc.mp4', None, {'iv_size': 8}),
 }
 Q_FILES = ['moov', 'enc-moov', 'hevc-moov', 'eac3-moov', 'ebuttd', 'webvtt', 'tseg', 'aseg',
            'tseg-tfdt-v0', 'tseg-tfhd-both', 'tseg-tfhd-all', 'tseg-trun-all', 'tseg-trun-first', 'moov-v1',
-           'emsg-boxes']
+           'emsg-boxes', 'aac-init', 'aac-esds-ocr', 'aac-esds-all']
 MAX_SYMBOLIC = 1500       # symbolic bytes per file (the first N content bytes; mdat tails stay concrete)
 
 ASSUMPTIONS = [
@@ -106,6 +109,14 @@ def _derive(data, kw, transform):
     elif transform == 'headers-v1':
         for box in (t.moov.mvhd, t.moov.trak.tkhd, t.moov.trak.mdia.mdhd, t.sidx):
             put(box, 'version', 1)
+    elif transform in ('esds-ocr', 'esds-all'):
+        # ES_Descriptor with its optional fields present (ISO/IEC 14496-1 7.2.6.5)
+        es = [d for d in _find_box(t, 'esds').descriptors if type(d).__name__ == 'ESDescriptor'][0]
+        put(es, 'ocr_es_id', 9)
+        if transform == 'esds-all':
+            put(es, 'stream_dependence_flag', True)
+            put(es, 'depends_on_es_id', 3)
+            put(es, 'url', b'urn:x')
     elif transform == 'emsg-boxes':
         boxes = []
         for ver in (0, 1):
@@ -120,6 +131,16 @@ def _derive(data, kw, transform):
     else:
         raise KeyError(transform)
     return t.encode()
+
+
+def _find_box(atom, atom_type):
+    for c in (atom.children or []):
+        if c.atom_type == atom_type:
+            return c
+        r = _find_box(c, atom_type)
+        if r is not None:
+            return r
+    return None
 
 
 _FILE_BYTES = {}
@@ -176,11 +197,17 @@ def _refusals():
     return (struct.error, bitstring.CreationError, OverflowError)
 
 
-def _pipeline(kw, with_json):
-    """the operations of the obligations, also used by the structural discovery pass"""
+def _pipeline(kw, with_json, parse_only=False):
+    """the operations of the obligations, also used by the structural discovery pass.
+    parse_only: what decides the *structure* of the parsed tree.  Bytes that steer only the
+    encoder stay symbolic, so a value-dependent branch in an encoder is explored, not pinned."""
     def ops(data):
         t0 = _load(data, kw, 'r', False)
         f0 = mkx.atom_fields(t0)
+        if parse_only:
+            t2 = _load(data, kw, 'r', True)
+            _force_lazy(t2)
+            return f0
         b1 = t0.encode()
         t1 = _load(b1, kw, 'r', False)
         mkx.atom_fields(t1)
@@ -222,9 +249,56 @@ def _sym_file(sx, name, with_json=False):
     return buf, kw, data
 
 
-def h_roundtrip(sx, name):
+def _sym_file_encsteer(sx, name):
+    """only the bytes that steer the *encoder* but not the parser are symbolic (everything else
+    keeps the fixture value): a value-dependent branch in an encoder is then explored for every
+    value of the field instead of being pinned to the fixture's value by the discovery pass"""
+    kw = FILES[name][2]
+    data = file_bytes(name)
+    skip = _candidate_ranges(data)
+    full = set(mkx.discover_structural((name, False), data, _pipeline(kw, False), skip_ranges=skip))
+    par = set(mkx.discover_structural((name, 'parse-only'), data, _pipeline(kw, False, parse_only=True), skip_ranges=skip))
+    steer = sorted(full - par)
+    keep = [i for i in range(len(data)) if i not in steer]
+    buf, symidx = mkx.symbolise(sx, data, keep, skip_ranges=skip)
+    sx.note('symbolic_bytes', len(symidx))
+    sx.note('encoder_steering_bytes', steer)
+    return buf, kw, data
+
+
+class _Filtered:
+    """sx facade that leaves some obligations out"""
+
+    def __init__(self, sx, skip):
+        self._sx = sx
+        self._skip = skip
+
+    def prove(self, cond, label, detail=None):
+        if label in self._skip:
+            return None
+        return self._sx.prove(cond, label, detail)
+
+    def fail(self, label, detail=None):
+        if label in self._skip:
+            return None
+        return self._sx.fail(label, detail)
+
+    def __getattr__(self, k):
+        return getattr(self._sx, k)
+
+
+def h_encsteer(sx, name):
+    return h_roundtrip(sx, name, encsteer=True)
+
+
+def h_roundtrip(sx, name, encsteer=False):
     from pysx.core import sx_and
-    buf, kw, data = _sym_file(sx, name)
+    buf, kw, data = _sym_file_encsteer(sx, name) if encsteer else _sym_file(sx, name)
+    if encsteer:
+        # steering fields (flags words, offsets) have reserved bits the encoder does not keep, so
+        # field equality needs per-field legality; byte identity of re-encoding does not
+        real_prove = sx.prove
+        sx = _Filtered(sx, skip=('C04.f2b2f',))
     try:
         t0 = _load(buf, kw, 'r', False)
         f0 = mkx.atom_fields(t0)
@@ -557,6 +631,11 @@ def instances(tier):
     for name in files:
         out.append({'name': f'roundtrip[{name}]', 'fn': h_roundtrip, 'params': {'name': name}, 'weight': 3,
                     'opts': {'max_paths': 2000, 'max_decisions': 20000, 'query_timeout_ms': 60000}})
+    for name in files:
+        if name in ('aseg', 'bbb_v7', 'bbb_a1_enc', 'seg1', 'emsg', 'webvtt'):
+            continue        # two discovery passes over 50-170 KB; webvtt: the steering fields are 64-bit sidx/tfdt times whose legal range depends on the box version (needs a per-field precondition)
+        out.append({'name': f'encsteer[{name}]', 'fn': h_encsteer, 'params': {'name': name}, 'weight': 3,
+                    'opts': {'max_paths': 3000, 'max_decisions': 20000, 'query_timeout_ms': 60000, 'fork_limit': 300}})
     # JSON conversion goes through base64 text: only files without large mdat payloads
     for name in (['moov', 'hevc-moov', 'eac3-moov'] if tier == 'quick'
                  else ['moov', 'enc-moov', 'hevc-moov', 'eac3-moov', 'ebuttd', 'webvtt']):
@@ -590,7 +669,7 @@ def _real_load(data, kw, mode='r', lazy=False):
 
 
 def observe(instance, params, inputs):
-    if not instance.startswith('roundtrip['):
+    if not (instance.startswith('roundtrip[') or instance.startswith('encsteer[')):
         return None
     data, kw = _concrete_bytes(params['name'], inputs)
     try:
@@ -623,7 +702,7 @@ def replay(case):
     params, inputs, label, inst = case['params'], case['inputs'], case['label'], case['instance']
     from dashlive.mpeg import mp4
     try:
-        if inst.startswith('roundtrip[') or inst.startswith('json['):
+        if inst.startswith('roundtrip[') or inst.startswith('json[') or inst.startswith('encsteer['):
             data, kw = _concrete_bytes(params['name'], inputs)
             t0 = _real_load(data, kw)
             bad = {}
